@@ -159,6 +159,39 @@ def run(tier, seed):
         meta.append({"t": "files", "files": files, "names": names, "implicit": False, "fmt": fmt, "b": b, "use": use,
                      "source": "use-%s-%s" % (use["mode"], use["sel"])})
 
+    # ---- A4. the law itself on files whose bytes are spelled unusually (byte-order mark, CR LF, no final newline), in every
+    # position of the file list: reading the files together = the concatenation of reading each alone
+    SPELL = {"plain": lambda t: t, "bom": lambda t: "\ufeff" + t, "crlf": lambda t: t.replace("\n", "\r\n"),
+             "noeol": lambda t: t[:-1] if t.endswith("\n") else t, "bomcrlf": lambda t: "\ufeff" + t.replace("\n", "\r\n")}
+    CONCAT_FLAGS = dict(FMT_FLAGS, pprint=["--ipprint"], jsonl=["--ijsonl"], nidx=["--inidx", "--ifs", "space"])
+
+    def render_concat(f, fmt):
+        if fmt == "pprint":
+            return " ".join(f["header"]) + "\n" + "".join(" ".join(r) + "\n" for r in f["rows"])
+        if fmt == "jsonl":
+            return "".join(json.dumps(dict(zip(f["header"], r))) + "\n" for r in f["rows"])
+        if fmt == "nidx":
+            return "".join(" ".join(r) + "\n" for r in f["rows"])
+        return render_file(f, fmt)
+    multi = sorted((x["files"] for x in fl if len(x["files"]) >= 2 and sum(1 for f in x["files"] if f["rows"]) >= 2
+                    and all("" not in r for f in x["files"] for r in f["rows"])),
+                   key=lambda fs: json.dumps(fs, sort_keys=True))
+    rnd.shuffle(multi)
+    cfmts = sorted(CONCAT_FLAGS)
+    for k, files in enumerate(multi[:(120 if thorough else 24)]):
+        vecs = [[a, b] + ["plain"] * (len(files) - 2) for a in SPELL for b in SPELL]
+        if len(files) > 2:
+            vecs += [[rnd.choice(list(SPELL)) for _ in files] for _ in range(12)]
+        for fmt in ([cfmts[k % len(cfmts)], cfmts[(k + 4) % len(cfmts)]] if not thorough else cfmts):
+            for vec in vecs:
+                names = ["f%d.%s" % (i + 1, fmt.split("-")[0]) for i in range(len(files))]
+                fmap = {n: SPELL[how](render_concat(f, fmt)) for n, f, how in zip(names, files, vec)}
+                cmd = " ".join(shlex.quote(a) for a in [mlr] + CONCAT_FLAGS[fmt] + OUT_FLAGS + ["put", PROGRAM])
+                shell = "%s %s > tog.out 2> tog.err; echo $? > tog.rc; " % (cmd, " ".join(names)) + \
+                        "".join("%s %s > a%d.out 2> a%d.err; echo $? > a%d.rc; " % (cmd, n, i, i, i) for i, n in enumerate(names)) + "echo done"
+                cases.append({"shell": shell, "files": fmap, "collect": True, "timeout_ms": 20000})
+                meta.append({"t": "concat", "files": files, "names": names, "fmt": fmt, "spelling": vec})
+
     # ---- C. sources: the same bytes from a file, stdin, --from, compressed files, in-process flags, prepipes ----
     src_files = [x["files"][0] for x in fl if len(x["files"]) == 1 and x["files"][0]["rows"]][:4]
     have_zstd = vlib.sh(["sh", "-c", "command -v zstd"], check=False).returncode == 0
@@ -195,6 +228,33 @@ def run(tier, seed):
                         case["argv"] = argv
                     cases.append(case)
                     meta.append({"t": "files", "files": [f], "names": [fname], "implicit": False, "fmt": fmt, "source": name})
+
+    # ---- C2. the same, with file names the shell of a prepipe (or anything else on the way) could misread -------
+    ODD_NAMES = ["in sp.dkvp", "in'q.dkvp", 'in"dq.dkvp', "in$HOME.dkvp", "in;x.dkvp", "in*.dkvp", "in\\b.dkvp", "in&(x).dkvp",
+                 "in#~!{}.dkvp", "in`id`.dkvp", "in|y>z.dkvp", "in?[a].dkvp", "d d/in.dkvp", "\u00e9t\u00e9 \u65e5.dkvp"]
+    if src_files:
+        f = src_files[0]
+        raw = render_file(f, "dkvp").encode()
+        gz = gzip.compress(raw)
+        base = [mlr] + FMT_FLAGS["dkvp"] + OUT_FLAGS
+        put = ["put", PROGRAM]
+        b64 = lambda b: base64.b64encode(b).decode()
+        for nm in ODD_NAMES:
+            variants = [
+                ("file-oddname", {nm: raw}, base + put + [nm], nm),
+                ("from-oddname", {nm: raw}, base + ["--from", nm] + put, nm),
+                ("prepipe-cat-oddname", {nm: raw}, base + ["--prepipe", "cat"] + put + [nm], nm),
+                ("prepipex-cat-oddname", {nm: raw}, base + ["--prepipex", "cat"] + put + [nm], nm),
+                ("prepipe-gunzip-oddname", {nm: gz}, base + ["--prepipe", "gunzip"] + put + [nm], nm),
+                ("gz-ext-oddname", {nm + ".gz": gz}, base + put + [nm + ".gz"], nm + ".gz"),
+                ("two-files-oddname", {nm: raw, "plain.dkvp": raw}, base + ["--prepipe", "cat"] + put + ["plain.dkvp", nm], None),
+            ]
+            for name, fb, argv, fname in variants:
+                cases.append({"files_b64": {k: b64(v) for k, v in fb.items()}, "timeout_ms": 10000, "argv": argv})
+                if fname is None:
+                    meta.append({"t": "files", "files": [f, f], "names": ["plain.dkvp", nm], "implicit": False, "fmt": "dkvp", "source": name})
+                else:
+                    meta.append({"t": "files", "files": [f], "names": [fname], "implicit": False, "fmt": "dkvp", "source": name})
 
     # ---- B. chains: then versus pipes ----------------------------------------------------------------
     ch, g = b3.gen_cases("ReaderGen", {"MaxLen": 3 if thorough else 2, "MaxFiles": 1, "Family": '"chain"'})
@@ -257,9 +317,25 @@ def run(tier, seed):
     res = vlib.run_cases(cases)
     vlib.confirm_timeouts(cases, res)
     obs, omap = [], []
+    n_concat = n_concat_skipped = 0
     for i, (m, rr) in enumerate(zip(meta, res)):
         if rr["timed_out"]:
             V.violation({"why": "hang", "t": m["t"]}, {"case": cases[i].get("argv") or cases[i].get("shell")})
+            continue
+        if m["t"] == "concat":
+            got = rr.get("files") or {}
+            if "tog.rc" not in got:
+                raise vlib.Inconclusive("concat run produced no output files: %s" % rr["stderr"][:300])
+            rcs = [got.get("a%d.rc" % j, "1").strip() for j in range(len(m["names"]))]
+            if any(x != "0" for x in rcs):
+                n_concat_skipped += 1          # a file the reader rejects when read alone: the law says nothing
+                continue
+            n_concat += 1
+            obs.append({"t": "concat", "out": parse_tab_dkvp(got.get("tog.out", ""))[0],
+                        "alone": [parse_tab_dkvp(got.get("a%d.out" % j, ""))[0] for j in range(len(m["names"]))],
+                        "exit": int(got["tog.rc"].strip() or 1), "files": [], "names": m["names"], "implicit": False, "endnr": "",
+                        "use": {"mode": "every", "sel": "all"}, "cs": [], "s": [], "piped": []})
+            omap.append(i)
             continue
         if m["t"] in ("files", "blocks"):
             out, endnr = parse_tab_dkvp(rr["stdout"])
@@ -280,7 +356,11 @@ def run(tier, seed):
     for idx, p in bad:
         i = omap[idx]
         m, o = meta[i], obs[idx]
-        if m["t"] in ("files", "blocks"):
+        if m["t"] == "concat":
+            V.violation({"why": p["why"], "fmt": m["fmt"], "spelling": m["spelling"]},
+                        {"shell": cases[i]["shell"], "files": cases[i]["files"], "together": o["out"][:6], "alone": [a[:4] for a in o["alone"]],
+                         "exit": o["exit"], "stderr": (res[i].get("files") or {}).get("tog.err", "")[:400]})
+        elif m["t"] in ("files", "blocks"):
             V.violation({"why": p["why"], "fmt": m["fmt"], "source": m.get("source", "files"), "nfiles": len(m["files"])},
                         {"argv": (cases[i].get("argv") or [None])[1:], "shell": cases[i].get("shell"), "files": m["files"], "observed": o["out"][:6],
                          "endnr": o["endnr"], "exit": o["exit"], "stderr": res[i]["stderr"][:400]})
@@ -311,6 +391,7 @@ def run(tier, seed):
         "rule": "file lists (1..3 files of 0..3 records, differing headers) x formats x batch sizes; 13 kinds of source for the same "
                 "bytes; every pair of %d composable verb configurations x streams plus seeded triples/quadruples, each run with `then` and "
                 "as piped processes (DKVP / JSON Lines); non-trivial = several files or non-empty stream" % len(verbs),
+        "concat_law_runs": n_concat, "concat_law_not_judged_file_rejected_alone": n_concat_skipped,
         "file_list_and_source_runs": nfiles, "chain_runs": len(cases) - nfiles, "exhaustive": False,
     })
     rc = V.finish()
